@@ -18,7 +18,7 @@ func init() {
 	run.Register(&run.Check{
 		ID:    "C15",
 		Level: "exploration",
-		Rule: "cases: histories of up to 40 InsertObject / DeleteObject / SetResources calls on one PolicyEngine - empty at first and filled one by one or through the bulk setter, or created by NewPolicyEngineWithObjects from the initial objects - (pods with controller owners - several per owner - relabelled, re-ported, added, deleted; namespaces inserted, relabelled, deleted; NetworkPolicies inserted, deleted, deleted+reinserted changed; ANPs inserted in non-priority order and deleted through the inserted or an equal fresh object; the BANP inserted, deleted, replaced; deletes of never-inserted objects of every kind; ClearResources followed by the return of the namespaces and pods with only some of the policies), with a fixed query set (pod pairs x boundary ports x TCP/UDP) asked after every step; " +
+		Rule: "cases: histories of up to 40 InsertObject / DeleteObject / SetResources calls on one PolicyEngine - empty at first and filled one by one or through the bulk setter, or created by NewPolicyEngineWithObjects from the initial objects - (pods with controller owners - several per owner - relabelled, re-ported, added, deleted; namespaces inserted, relabelled, deleted; NetworkPolicies inserted, deleted, deleted+reinserted changed; ANPs inserted in non-priority order and deleted through the inserted or an equal fresh object; the BANP inserted, deleted, replaced; deletes of never-inserted objects of every kind; ClearResources followed by the return of the namespaces and pods with only some of the policies; a SetResources call that fails half-way, judged against both readings of what a failed batch leaves behind), with a fixed query set (pod pairs x boundary ports x TCP/UDP) asked after every step; " +
 			"oracle: the history engine's answer must equal the answer of a fresh engine built with NewPolicyEngineWithObjects from the objects current at that moment (the reference model is consulted too: where fresh engine and model disagree the query is not judged here); the engine's own cache-hit counter, read around every query, says which answers came out of the cache; " +
 			"non-trivial = at least one answer after an update came from the cache and at least one answer changed over the history; distinct = hash of the operation sequence",
 		Assumptions:       []string{"current objects = the objects of the successful calls so far (model state kept by the harness)", "a NetworkPolicy is updated by delete + insert (InsertObject rejects an existing name)"},
@@ -29,7 +29,7 @@ func init() {
 		MinEffectiveShare: 0.5,
 		RequiredEvents: map[string]int64{"steps": 5000, "queries": 200000, "cache_hits_after_update": 5000, "answers_changed_by_a_step": 1000, "deletes_of_absent_objects": 300,
 			"op_nsRelabel": 100, "op_nsDelete": 50, "op_anpInsert": 100, "op_anpDelete": 100, "op_banpInsert": 50, "op_banpDelete": 50, "op_npInsert": 100, "op_npDelete": 100,
-			"op_podRelabel": 100, "op_podDelete": 50, "op_podPorts": 50, "op_podRecreate": 50, "op_SetResources": 100, "op_clearRepopulate": 50, "histories_starting_from_the_constructor": 100},
+			"op_podRelabel": 100, "op_podDelete": 50, "op_podPorts": 50, "op_podRecreate": 50, "op_SetResources": 100, "op_clearRepopulate": 50, "histories_starting_from_the_constructor": 100, "op_failingBulkSet": 50},
 	})
 }
 
@@ -266,7 +266,7 @@ func runC15(c *run.Ctx) {
 	for step := 0; step < steps && len(r.Violations) == 0; step++ {
 		r.Ev("steps", 1)
 		op := rng.Pick(g, []string{"podRelabel", "podDelete", "podAdd", "podPorts", "podRecreate", "nsRelabel", "nsRelabel", "nsDelete", "npInsert", "npDelete", "npReplace",
-			"anpInsert", "anpInsert", "anpDelete", "banpInsert", "banpDelete", "banpReplace", "deleteAbsent", "deleteAbsent", "requery", "bulkSet", "clearRepopulate"})
+			"anpInsert", "anpInsert", "anpDelete", "banpInsert", "banpDelete", "banpReplace", "deleteAbsent", "deleteAbsent", "requery", "bulkSet", "clearRepopulate", "failingBulkSet"})
 		done := false
 		switch op {
 		case "podRelabel":
@@ -510,6 +510,93 @@ func runC15(c *run.Ctx) {
 				st.call("insert "+d.Kind+" "+d.Ns+"/"+d.Name+" (after ClearResources)", st.eng.Insert(o), true)
 			}
 			done = true
+		case "failingBulkSet":
+			// a SetResources call that fails half-way: a relabelled namespace next to a NetworkPolicy the engine already holds (rejected as a
+			// duplicate). Whether the namespace of the failed batch is kept (the documented "simply calls InsertObject") or not (an atomic
+			// setter) is left open: the answers afterwards - cached ones and fresh ones on a port never asked before - must ALL be those
+			// of a fresh engine with the namespace relabelled, or ALL those of a fresh engine without; a mixture is a leak.
+			if len(st.w.NetPols) == 0 || len(st.w.Workloads) < 2 {
+				break
+			}
+			wB := st.w.Clone()
+			wA := st.w.Clone()
+			ni := g.Intn(len(wA.Namespaces))
+			wA.Namespaces[ni].HasObj = true
+			wA.Namespaces[ni].Labels = map[string]string{}
+			for _, k := range world.Keys {
+				if g.P(0.5) {
+					wA.Namespaces[ni].Labels[k] = rng.Pick(g, world.Vals)
+				}
+			}
+			dup := st.w.NetPols[g.Intn(len(st.w.NetPols))]
+			objs := []runtime.Object{st.obj(world.NamespaceDoc(&wA.Namespaces[ni])), st.obj(world.NetPolDoc(&dup))}
+			res, _ := st.eng.SetResources(objs)
+			st.log = append(st.log, "SetResources failing: namespace "+wA.Namespaces[ni].Name+" relabelled + duplicate policy "+dup.Ns+"/"+dup.Name)
+			if res.Panic != "" {
+				r.Violate("c15.total", "c15.total:SetResources:panic", "an error, never a crash", "panic: "+res.Panic, "")
+				break
+			}
+			r.Ev("op_failingBulkSet", 1)
+			if !res.HasErr {
+				r.Ev("failing_bulk_set_accepted", 1) // the duplicate was accepted: then the batch is applied and judged like any other
+			}
+			oa, errA := observe.ObjectsFromWorld(wA)
+			ob, errB := observe.ObjectsFromWorld(wB)
+			if errA != nil || errB != nil {
+				break
+			}
+			fa, ca := observe.NewEngineWithObjects(oa)
+			fb, cb := observe.NewEngineWithObjects(ob)
+			if ca.Panic != "" || ca.HasErr || cb.Panic != "" || cb.HasErr {
+				break
+			}
+			okA, okB := true, true
+			witness := ""
+			newPort := 20000 + step
+			pods := []string{}
+			for i := range st.w.Workloads {
+				for k, pn := range podNamesOf(&st.w.Workloads[i]) {
+					if k < 2 && len(pods) < 6 {
+						pods = append(pods, pn)
+					}
+				}
+			}
+			for _, s0 := range pods {
+				for _, d0 := range pods {
+					if s0 == d0 {
+						continue
+					}
+					for _, p := range append(append([]int{}, ports...), newPort) {
+						a := st.eng.Check(s0, d0, "TCP", fmt.Sprint(p))
+						xa, xb := fa.Check(s0, d0, "TCP", fmt.Sprint(p)), fb.Check(s0, d0, "TCP", fmt.Sprint(p))
+						if a.Panic != "" || a.HasErr || xa.HasErr || xb.HasErr {
+							continue
+						}
+						r.Ev("queries", 1)
+						if a.Allowed != xa.Allowed {
+							okA = false
+							witness += fmt.Sprintf(" [%s>%s/%d engine=%v relabelled=%v]", s0, d0, p, a.Allowed, xa.Allowed)
+						}
+						if a.Allowed != xb.Allowed {
+							okB = false
+							witness += fmt.Sprintf(" [%s>%s/%d engine=%v unchanged=%v]", s0, d0, p, a.Allowed, xb.Allowed)
+						}
+					}
+				}
+			}
+			if !okA && !okB {
+				if len(witness) > 600 {
+					witness = witness[:600]
+				}
+				r.Violate("c15.history", "c15.history:failed-SetResources:mixed-state", "all answers those of a fresh engine with the failed batch's namespace kept, or all those of one without it",
+					"a mixture:"+witness, "history: "+strings.Join(st.log, " ; "))
+				break
+			}
+			if okA {
+				st.w = wA
+			}
+			prev = map[string]bool{}
+			continue
 		case "requery":
 			done = true
 		}
